@@ -314,6 +314,7 @@ func runC06(t *testing.T, sc *world.Scenario) *check.Result {
 			o.pid[sc.Curves[i].ID] = &pidRef{}
 		}
 		st.HarnessDriven = true
+		st.ValidateFirst = true
 		st.OnBooted = func(st *stage.Stage) {
 			st.K.Go("evaluator", func() {
 				r := kernel.NewRand(sc.Seed, "c06.task")
@@ -482,6 +483,7 @@ func runC06Conc(t *testing.T, sc *world.Scenario) *check.Result {
 			in.pid[sc.Curves[i].ID] = &pidRef{}
 		}
 		st.HarnessDriven = true
+		st.ValidateFirst = true
 		st.W.MemberYields = true
 		st.OnBooted = func(st *stage.Stage) {
 			r := kernel.NewRand(sc.Seed, "c06conc.task")
